@@ -246,6 +246,9 @@ pub fn option_sets(tier: Tier) -> Vec<OptSet> {
 
 pub fn check(tier: Tier) -> i32 {
 	surrealkv::verif::set_forced_height(1);
+	// the conflict oracle prunes its map every 2 commits instead of every 1024: its watermark has
+	// moved past the checkpoint's sequence number by the time of the restore
+	surrealkv::verif::set_gc_interval(2);
 	let mut report = Report::new("C14", tier, "model_checking");
 	let budget = Budget::new(if tier == Tier::Quick { 50.0 } else { 600.0 });
 	let (m, p) = if tier == Tier::Quick { (2, 3) } else { (3, 3) };
@@ -339,6 +342,7 @@ pub fn check(tier: Tier) -> i32 {
 	report.set("exhaustive", json!(all_complete));
 	report.set("failures_per_class", json!(per_class));
 	report.assume("no commit is in flight during checkpoint/restore (single-threaded driver)");
+	report.assume("conflict-oracle GC interval forced to 2 (hook) so that pruning happens between checkpoint and restore");
 	// schedule part: a checkpoint taken (no commit in flight) while a compaction round and a
 	// background flush are running; the checkpoint is then opened on its own
 	let code = crate::props::sched::run_into(&mut report, "C14", tier, if tier == Tier::Quick { 10.0 } else { 200.0 });
